@@ -96,12 +96,13 @@ where
         let rank: usize = res_infos.rank().into();
         let cols: usize = rank + 1;
 
-        let res_size: usize = res_infos.size();
         let a_size: usize = res_infos.max_k().as_usize().div_ceil(tsk_base2k);
+        // The accumulator of `ggsw_expand_rows_internal` is taken with `tsk.size()` limbs.
+        let res_dft_size: usize = tsk_infos.size();
 
         let lvl_0: usize = self.bytes_of_vec_znx_dft(cols - 1, a_size) + VecZnx::bytes_of(self.n(), 1, a_size);
-        let lvl_1_res_dft: usize = self.bytes_of_vec_znx_dft(cols, a_size);
-        let lvl_1_gglwe_prod: usize = self.gglwe_product_dft_tmp_bytes(res_size, a_size, tsk_infos);
+        let lvl_1_res_dft: usize = self.bytes_of_vec_znx_dft(cols, res_dft_size);
+        let lvl_1_gglwe_prod: usize = self.gglwe_product_dft_tmp_bytes(res_dft_size, a_size, tsk_infos);
         let lvl_1_norm_big: usize = self.vec_znx_big_normalize_tmp_bytes();
         let lvl_1: usize = lvl_1_res_dft + lvl_1_gglwe_prod.max(lvl_1_norm_big);
         let lvl_2: usize = if res_infos.base2k() == tsk_infos.base2k() {
